@@ -230,13 +230,12 @@ fn check_std_direct(
                 // differently, e.g. -w next to invalid UTF-8)
                 let cont_len = content(bytes, o.crlf).len();
                 let hay = &trace.bufs[*buf][..*rs + cont_len];
-                let first = if o.invert {
-                    None
-                } else {
-                    matcher.find_at(hay, *rs).ok().flatten().map(|m| grep_matcher::Match::new(m.start() - *rs, m.end() - *rs))
-                };
+                // (also under -v: a reported non-matching line normally has no match and hence no column, but the
+                // printer shows one whenever its own search finds a match, e.g. \B next to invalid UTF-8)
+                let first =
+                    matcher.find_at(hay, *rs).ok().flatten().map(|m| grep_matcher::Match::new(m.start() - *rs, m.end() - *rs));
                 let mut ms = vec![];
-                if o.vimgrep && !o.invert {
+                if o.vimgrep {
                     let _ = matcher.find_iter_at(hay, *rs, |m| {
                         ms.push(m.start() - *rs);
                         true
@@ -244,7 +243,7 @@ fn check_std_direct(
                 }
                 // (a line the searcher reports although the matcher finds nothing in its content — C01/F1 under
                 // --crlf — is printed once, without column, like any line without recorded matches)
-                if o.vimgrep && !o.invert && !ms.is_empty() {
+                if o.vimgrep && !ms.is_empty() {
                     for s in ms {
                         expects.push(Some(Expect {
                             is_ctx: false,
